@@ -40,7 +40,7 @@ ALPHA = {
 # (alphabet, MaxLen, tables)
 PLANS = {
     "quick": [("esc", 4, ["T1"]), ("nest", 4, ["T1"]), ("val", 3, ["T1"]), ("typ", 3, ["T1"]), ("inv", 3, ["T1"]),
-              ("esc", 3, ["T2"]), ("val", 2, ["T2"])],
+              ("esc", 3, ["T2"]), ("val", 2, ["T2"]), ("typ", 2, ["T2"])],
     "thorough": [("esc", 5, ["T1"]), ("nest", 5, ["T1"]), ("val", 4, ["T1"]), ("typ", 4, ["T1"]), ("inv", 4, ["T1"]),
                  ("esc", 4, ["T2"]), ("nest", 4, ["T2"]), ("val", 3, ["T2"]), ("typ", 3, ["T2"])],
 }
